@@ -28,7 +28,7 @@ ASSUMPTIONS = [
     'background handlers are joined FIFO on both sides before comparison',
     'exception *types* are compared, not messages',
 ]
-BUDGET = {'quick': 1200, 'thorough': 60000}
+BUDGET = {'quick': 5000, 'thorough': 80000}
 FLOOR = {'quick': 100, 'thorough': 5000}
 
 FAMILIES = ['server']
